@@ -820,6 +820,10 @@ class Representation:
 
         if dtype is None:
             dtype = self.dtype
+            if np.issubdtype(np.dtype(dtype), np.integer):
+                # the adjoint action involves the inverse matrices, which
+                # are stored as floats even for integer generators
+                dtype = np.dtype('float64')
 
         gln_adjoint = lie.hom.gln_adjoint(
             base_ring=base_ring, dtype=dtype
@@ -834,6 +838,10 @@ class Representation:
 
         if dtype is None:
             dtype = self.dtype
+            if np.issubdtype(np.dtype(dtype), np.integer):
+                # the adjoint action involves the inverse matrices, which
+                # are stored as floats even for integer generators
+                dtype = np.dtype('float64')
 
         sln_adjoint = lie.hom.sln_adjoint(
             base_ring=base_ring, dtype=dtype
